@@ -197,7 +197,8 @@ def readers_replay(vals):
 
 TYPE_EXTRA = ["V<sizeof...(Ts)> v;", "V<1 + sizeof...(Ts), int> v;", "decltype(static_cast<const T&>(t)) v;", "typename decltype(new Foo)::element_type v;",
               "template <typename... Ts> Pack<sizeof...(Ts)> make(Ts... ts);", "void f() noexcept(noexcept(g(1 << 2)));", "#pragma omp parallel for num_threads(4)\n",
-              "struct S { int b : sizeof(int) * 2; int a[3 + 4] = {1, 2}; };", "template <auto N = sizeof(unsigned int)> struct Z {};"]
+              "struct S { int b : sizeof(int) * 2; int a[3 + 4] = {1, 2}; };", "template <auto N = sizeof(unsigned int)> struct Z {};",
+              "constexpr auto page = sizeof 4_KiB;", "bool ok = not 1_flag;", "auto q = x or 1_V; auto s = \"abc\"_s + 1.5_m;", "int t[10] = { [0 ... 9] = 1 };"]
 
 
 def _walk_tokens(o, out, seen):
@@ -243,16 +244,20 @@ def types_judge(src):
             if len(lx) != 1 or lx[0].type != t.type:
                 odd = f"token {t.value!r} is exposed with type {t.type!r}; the lexer gives {[x.type for x in lx]}"
                 break
-        if odd is None:
-            continue
-        # a token with a type of its own is only the premise failing; the property fails when the formatted list does not lex back
+        # the property itself, end to end: the formatted list lexes back to the same texts.  (A token with a type of its own is
+        # only the premise of the solver analysis failing; it is named in the message.)  Glued ']' ']' / '[' '[' is the listed
+        # finding D2-punct and is left to the class analysis below.
         fmt = tokfmt(toks)
         try:
             back = [x.value for x in real_lex(fmt)]
         except Exception as e:  # noqa
             back = repr(e)
         if back != [t.value for t in toks]:
-            return f"{odd}; tokfmt gives {fmt!r}, which lexes back as {back}"
+            vals_ = [t.value for t in toks]
+            glued = any(a == b and a in ("[", "]") for a, b in zip(vals_, vals_[1:]))
+            if glued and odd is None:
+                continue
+            return f"{odd or 'value tokens ' + repr(vals_)}; tokfmt gives {fmt!r}, which lexes back as {back}"
     return None
 
 
